@@ -18,11 +18,13 @@ import json
 import math
 import os
 import random as pyrandom
+import sys
 import time
 from types import SimpleNamespace
 
 import numpy as np
 
+import common
 from common import f2h, h2f, close, VERIF
 import gen_comp
 import extract_comp as X
@@ -154,6 +156,15 @@ def wire_priors(model):
 
 def own_log_prior(p, v):
     """`log_prior_from_value` restated (C04 ties the library's formulas); used by the oracle"""
+    try:
+        return _own_log_prior(p, v)
+    except OverflowError:  # Python floats raise where the library's numpy scalars give inf
+        return math.inf
+    except ZeroDivisionError:
+        return math.inf if v == 0 and not math.copysign(1.0, v) < 0 else -math.inf
+
+
+def _own_log_prior(p, v):
     kind = type(p).__name__
     if kind == "UniformPrior":
         return 0.0
@@ -313,7 +324,7 @@ def oracle(ctx, kind, case, model, analysis, samples, result, cores=1, partial_k
         # two routes from the sample to an instance; both must evaluate to the reported likelihood
         t1 = float(analysis.log_likelihood_function(s.instance_for_model(model, ignore_assertions=True)))
         t2 = float(analysis.log_likelihood_function(model.instance_from_vector(row, ignore_prior_limits=True)))
-        if not (abs(t1 - t2) <= 1e-12 * (1 + abs(t1))):
+        if not (t1 == t2 or (t1 != t1 and t2 != t2) or abs(t1 - t2) <= 1e-12 * (1 + abs(t1))):
             ctx.fail(f"C05-{kind}-instance-routes", f"{kind}: instance by path and by vector differ for a sample", case,
                      {"i": k, "by_path": t1, "by_vector": t2})
             return -1
@@ -378,13 +389,17 @@ def oracle(ctx, kind, case, model, analysis, samples, result, cores=1, partial_k
 
 
 def near(a, b, tol):
-    return a == b or (a != a and b != b) or abs(a - b) <= tol
+    if a == b or (a != a and b != b):
+        return True
+    if math.isinf(a) or math.isinf(b):
+        return False  # an infinite tolerance (scaled by an infinite value) must not equate inf with a number
+    return abs(a - b) <= tol
 
 
 def permutation_of(reported, true):
     """the reported likelihoods of the unfaithful samples are a permutation of their true likelihoods"""
     a, b = sorted(reported), sorted(true)
-    return len(a) == len(b) and all(abs(x - y) <= 1e-9 * (1 + abs(y)) for x, y in zip(a, b))
+    return len(a) == len(b) and all(x == y or abs(x - y) <= 1e-9 * (1 + abs(y)) for x, y in zip(a, b))
 
 
 # ---------------------------------------------------------------------------------------------
@@ -416,6 +431,12 @@ def finish_case(ctx, kind, case, req, model, analysis, samples, search, internal
         nbad = oracle(ctx, kind, case, model, analysis, samples, result, cores=cores, partial_known=partial_known)
     except Exception as e:
         nbad = -1
+        import traceback
+        tb = traceback.format_exc()
+        if os.environ.get("VERIF_DEBUG"):
+            print(tb, file=sys.stderr)
+        if f'File "{common.REPO}/' not in tb:
+            raise  # nothing of the implementation on the stack: a defect of this oracle, not a verdict
         ctx.fail(f"C05-{kind}-result-unusable", f"{kind}: reading the samples / best fit of the returned result raises "
                  f"{type(e).__name__}", case, {"error": f"{type(e).__name__}: {str(e)[:300]}"})
     nontrivial = model.prior_count >= 2 and len(real) >= 2
@@ -677,7 +698,13 @@ class RejectingAnalysis(QuadAnalysis):
     def log_likelihood_function(self, instance):
         xs = [v for _, v in leaves(instance)]
         v = self.value(xs)
-        if int(abs(v) * 1000) % 4 == 0:
+        # rejection is a function of the drawn point (mantissa bits of the parameters), never of the value:
+        # a likelihood that is constant or tiny must not reject every draw (the initializer would loop for ever)
+        import struct
+        bits = 0
+        for x in xs:
+            bits ^= struct.unpack("<Q", struct.pack("<d", float(x)))[0] >> 18
+        if bits % 4 == 0:
             return float("nan")
         return v
 
@@ -689,12 +716,13 @@ def init_case(ctx, prog, model, analysis):
     rej = RejectingAnalysis(analysis.centres, analysis.scales, analysis.weights)
     fitness = Fitness(model=model, analysis=rej, paths=None, fom_is_log_likelihood=False,
                       resample_figure_of_merit=-np.inf, convert_to_chi_squared=False)
-    total = rng.randint(2, 6)
+    total = rng.randint(3, 8)
     pyrandom.seed(rng.randrange(1 << 30))
     init = af.InitializerPrior()
+    n_cores = 1 if rng.random() < 0.6 else 2
     unit, params, figs = init.samples_from_model(total_points=total, model=model, fitness=fitness, paths=None,
-                                                 n_cores=1, test_mode_samples=False)
-    case = {"mode": "init", "kind": "init", "program": prog, "analysis": analysis.spec()}
+                                                 n_cores=n_cores, test_mode_samples=False)
+    case = {"mode": "init", "kind": "init", "program": prog, "analysis": analysis.spec(), "n_cores": n_cores}
     if len(params) != total or len(figs) != total:
         ctx.fail("C05-init-count", "initializer returned a different number of points than requested", case,
                  {"asked": total, "got": len(params)})
@@ -702,11 +730,16 @@ def init_case(ctx, prog, model, analysis):
     for r, f in zip(params, figs):
         ll = true_ll(model, rej, r)
         want = ll + sum(own_log_prior(p, x) for p, x in zip(model.priors_ordered_by_id, r))
-        if not (abs(float(f) - want) <= 1e-9 * (1 + abs(want))):
+        if not (float(f) == want or abs(float(f) - want) <= 1e-9 * (1 + abs(want))):
             bad += 1
     if bad:
-        ctx.fail("C05-init-pairing", "initializer pairs a point with a figure of merit that is not its own (single worker)",
-                 case, {"bad": bad, "of": total})
+        ctx.fail("C05-init-pairing", f"initializer pairs a point with a figure of merit that is not its own ({n_cores} worker(s), "
+                 "part of the space rejected)", case, {"bad": bad, "of": total})
+    if n_cores > 1:
+        # batches of several points: rejected draws are not observable, so only the pairing oracle applies
+        ctx.case({"kind": "init", "n_cores": n_cores, "params": [hexrow(r) for r in params]}, nontrivial=total >= 2)
+        ctx.hit("init:%d-workers" % n_cores)
+        return
     # model: every accepted point is one batch of size 1 (n_cores = 1), rejected draws are not observable
     req = {"p": "C05", "q": "init",
            "batches": [{"inputs": [hexrow(r)], "figs": [f2h(float(f))], "order": [0]} for r, f in zip(params, figs)]}
@@ -970,7 +1003,7 @@ def run(ctx):
         if quant:
             ctx.hit("likelihood:piecewise-constant(ties)")
         guarded(ctx, kind, prog, analysis, lambda: SYNTH[kind](ctx, prog, model, analysis))
-    for _ in range(ctx.n(3, 30)):
+    for _ in range(ctx.n(10, 60)):
         prog, model = gen_model(ctx)
         analysis = make_analysis(rng, model)
         guarded(ctx, "init", prog, analysis, lambda: init_case(ctx, prog, model, analysis))
